@@ -181,7 +181,13 @@ func censusStatusMap(w *World, r *Report) []*Obligation {
 			bad = append(bad, f)
 		}
 	}
-	out = append(out, censusObl("C14", "C14/lint.StatusLabelToLintStatus/nowriter#1", "census", src, "no function other than the package initialiser writes StatusLabelToLintStatus", len(bad) == 0, strings.Join(bad, ", ")))
+	// beyond direct writes: the map is exported, any package may hand it to code that changes it
+	// (delete through a parameter, a helper that filters "its" argument in place). The read-only
+	// census of the package invariants follows every use of the loaded value through the module.
+	if gvar, ok := w.pkgByPath(pkg).Scope().Lookup("StatusLabelToLintStatus").(*types.Var); ok {
+		bad = append(bad, w.globalReadOnly(gvar)...)
+	}
+	out = append(out, censusObl("C14", "C14/lint.StatusLabelToLintStatus/nowriter#1", "census", src, "outside the package initialiser StatusLabelToLintStatus is only read anywhere in the module (looked up, ranged over, measured; never stored to, deleted from, or handed to a call)", len(bad) == 0, strings.Join(bad, "; ")))
 	return out
 }
 
